@@ -11,7 +11,8 @@ RULE = ("logical documents rendered as binary token streams (keys as token ids /
         "{fill, 1 byte, chunks}, BinaryFlavor::deserialize_slice/reader}.  non-trivial = a value came out")
 TRUSTED = ["serde's primitive visitors (integer range checks, int->float casts) are the real ones and are mirrored in dedoc.expected_scalar_bin",
            "flavor arithmetic (eu4: i32/1000 in f32, Q49.15 rounded to 5 digits; raw: IEEE bits) is recomputed exactly in Python (fractions)"]
-ASSUMPTIONS = ["container shapes only on containers of the same kind, `any` only on scalars and rgb; root target is a struct or map",
+ASSUMPTIONS = ["walk_model: the float decoders of the flavor and serde's `as` casts are parameters of the Coq model, implemented natively in ocaml/fam_bde.ml",
+               "container shapes only on containers of the same kind, `any` only on scalars and rgb; root target is a struct or map",
                "a ghost {} is never the first entry of a document/container: the tape parser deliberately rejects/reads it as an array there while "
                "the other two paths skip it (reported as an observation, not generated)",
                "I64 tokens make the tape parser fail (C03 finding B); they are generated only in the stream `i64` whose failures carry key B-tape-i64"]
@@ -193,6 +194,23 @@ def run(ctx):
     if not (a == b == c):
         ctx.fail("C-ondemand-rgb-any", "color=rgb{110 27 27} into deserialize_any: tape %s, on-demand %s, stream %s" % (a, b, c), fc, [a, b, c], a)
 
+    # findings N and O (found while modelling the three walks; Props/C04_walk.v: C04_u16_on_id_value_refuted,
+    # C04_rgb_in_array_refuted): fixed replays, each must keep showing the deviation it documents and nothing else
+    xk = D.bstr(b"x", True) + D.EQ
+    n_doc = xk + D.tok(0x1234)
+    rgb = D.tok(0x243) + D.OPEN + b"".join(D.tok(0x14) + struct.pack("<I", c) for c in (1, 2, 3)) + D.CLOSE
+    o_doc = xk + D.OPEN + rgb + D.CLOSE
+    nc = ["\t".join(["de.bin", p, "error", "map:1234=" + hx("abc"), "eu4", "struct(%s:u16)" % hx("x"), hx(n_doc)]) for p in ("tape", "slice", "reader:64:-")]
+    oc = ["\t".join(["de.bin", p, "stringify", "map:-", "eu4", "struct(%s:seq(any))" % hx("x"), hx(o_doc)]) for p in ("tape", "slice", "reader:64:1*")]
+    walk += to_model(nc + oc)
+    impl, _ = ctx.correspond("known-deviations", nc + oc, nontrivial=nt, model=False)
+    a, b, c = impl[-6:-3]
+    if not (a == b == c):
+        ctx.fail("N-tape-u16-id-value", "x=<token id 0x1234> into a u16 field: tape %s, on-demand %s, stream %s" % (a, b, c), nc, [a, b, c], b)
+    a, b, c = impl[-3:]
+    if not (a == b == c):
+        ctx.fail("O-tape-rgb-in-array", "x={ rgb{1 2 3} } into seq(any): tape %s, on-demand %s, stream %s" % (a[:90], b[:90], c[:90]), oc, [a, b, c], b)
+
     # token text-line parser of BasicTokenResolver
     rcases, rexp = [], []
     for _ in range(ctx.scale(400, 4000)):
@@ -248,6 +266,6 @@ def search(ctx):
 
 CLAIM = {
     "text": "the three binary deserializers and the BinaryFlavor convenience entry points are run through a runtime-shape serde interpreter on generated binary documents x resolvers x strategies x flavors x shapes x buffer sizes/schedules; each result is compared with an independently computed expected value (hence pairwise equal); Coq: see coverage.theorems",
-    "note": "Theorems in Props/C04.v are over the Serde specification and the binary value model; byte-level lexing is C03/C08. The path agreement itself is carried by the oracle streams.",
+    "note": "Props/C04_walk.v: the three deserializer walks are executable Coq models run from the bytes (stream walk_model); each is proved equal to the specification walk over abstract documents (hence pairwise equal) for all configurations, shapes that fit and well-formed documents, the reader for every fitting capacity and fault-free schedule. Props/C04.v keeps the scalar-level laws. Findings N (u16 target on a token-id value) and O (rgb as an array element) are outside the fitting class and are replayed.",
     "technique": "machine-checked proof in Coq over an executable model + specification oracle on the implementation",
 }
